@@ -294,7 +294,7 @@ def run(ctx, idx):
         if not isabs or not wd:
             ok = False
             why = "InvalidRelativePath is not raised exactly for a relative path with no working directory"
-        elif not all(c.dominates(wd[0], j) for j in joins):
+        elif not all(c.dominates(wd[0], j) for j in joins if any(xsrc(a_).endswith(".working_dir") for a_ in j.ast.args)):
             ok = False
             why = "the join can run with working_dir = None"
         # the joined value must be what is returned / checked for existence
